@@ -257,6 +257,9 @@ def analyse_unit(unit, repo, scratch, tier, seed, cfg):
             "clause": " ".join(x.strip() for x in glines[cl_line - 1: min(clause[0][1], cl_line + 3)]) if clause else None,
             "site": glines[site_line - 1].strip() if site_line else None,
             "gen_line": site_line, "clause_gen_line": cl_line, "repo_location": orig, "tags": tags, "tag_level": level,
+            # the failing statement is spliced PROOF TEXT (an assert / lemma call of a //@before|after|bodystart hint), not a
+            # clause of the function's contract and not real code
+            "in_hint": bool(m.get("kind") == "ghost" and m.get("tag") in ("ghost-proof", "ghost-body")),
         })
     # functions that failed in the breakdown but produced no diagnostic we understood -> undecided
     if res["errors"] and not res["failures"] and not res["undecided"]:
@@ -431,6 +434,20 @@ def main():
                     others.append(f)
             for u in r["undecided"]:
                 undecided.append("%s: %s" % (r["unit"], u))
+        # Proof hints vs. obligations.  The contract of a function (requires / ensures / loop invariants / callee preconditions at
+        # real call sites / overflow checks on real code) is the obligation; the asserts and lemma calls spliced at text anchors are
+        # proof engineering.  When a HINT inside a function fails, the hints no longer fit the changed text of that function (a moved
+        # or rewritten statement: the fact is asserted at the wrong program point), and a failing contract clause of the same function
+        # may then be an artefact of the missing hint.  Such a function is UNDECIDED (tool limit), not a violation; the boundary-input
+        # enumeration below decides.  A function whose hints all verify and whose contract clause fails stays a violation.
+        hint_fns = set((f.get("unit"), f.get("function")) for r in results for f in r["failures"] if f.get("in_hint"))
+        if hint_fns:
+            moved = [f for f in violations if (f.get("unit"), f.get("function")) in hint_fns]
+            if moved:
+                violations = [f for f in violations if (f.get("unit"), f.get("function")) not in hint_fns]
+                for u, fn in sorted(set((f.get("unit"), f.get("function")) for f in moved)):
+                    cl = [("%s: %s" % (f.get("message"), (f.get("clause") or "")[:120])) for f in moved if f.get("unit") == u and f.get("function") == fn]
+                    undecided.append("%s: proof hints inside fn %s no longer verify on the changed text, so its %d failing obligation(s) are not attributable (tool limit): %s" % (u, fn, len(cl), " | ".join(cl[:3])))
         for er in extra_results:
             for f in er.get("failures", []):
                 hit = None
